@@ -236,8 +236,8 @@ static void c10impl(const Trace& t, const Analysis& A, Verdict& V, std::vector<M
 	const Info& f = t.info;
 	if (!f.hasPlans) return;
 	if (atStep) atStep->assign(A.wins.size(), ModelAt{});
-	struct M { std::vector<TaskV> v; bool known = false, dead = false, outcomePending = false, havePending = false; TaskV pend; } ms[3];
-	auto removeMask = [](std::vector<TaskV>& v, uint8_t mask) { std::vector<TaskV> n; for (size_t k = 0; k < v.size(); ++k) if (!((mask >> (k % 8)) & 1)) n.push_back(v[k]); v.swap(n); };
+	struct M { std::vector<TaskV> v; bool known = false, dead = false, outcomePending = false, havePending = false; TaskV pend; size_t removeBase = 0; } ms[3];
+	auto removeMask = [](std::vector<TaskV>& v, uint8_t mask, size_t base = ~size_t(0)) { std::vector<TaskV> n; for (size_t k = 0; k < v.size(); ++k) if (k >= base || !((mask >> (k % 8)) & 1)) n.push_back(v[k]); v.swap(n); };
 	for (uint32_t i = 0; i < t.n; ++i) {
 		const Ev& e = t.ev[i];
 		M& m = ms[e.inst % 3];
@@ -250,6 +250,7 @@ static void c10impl(const Trace& t, const Analysis& A, Verdict& V, std::vector<M
 		if (m.dead) continue;
 		const Win* w = A.ann[i].win >= 0 ? &A.wins[A.ann[i].win] : nullptr;
 		if (e.kind == EV_BEGIN && e.method == OP_PLAN_APPEND) { m.pend = TaskV{e.a, e.b, uint8_t(e.c != 0), e.c, 1, 1}; m.havePending = true; }
+		if (e.kind == EV_NOTE && e.method == NOTE_ITER_REMOVE) { if (e.a < m.v.size()) m.v.erase(m.v.begin() + e.a); else if (m.known) V.add(10, i, "iterator visited and removed a task the plan does not hold"); }
 		if (e.kind == EV_ACT) {
 			if (e.method == ACT_PLAN_APPEND) { m.pend = TaskV{e.a, e.b, uint8_t(e.c != 0), e.c, 1, 1}; m.havePending = true; }
 			if (e.method == ACT_PLAN_CLEAR) m.v.clear();
@@ -267,7 +268,7 @@ static void c10impl(const Trace& t, const Analysis& A, Verdict& V, std::vector<M
 		if (e.kind == EV_NOTE && e.method == NOTE_ITER && !e.a) V.add(10, i, F("iterating while removing did not visit exactly the tasks of the plan in order (visited %u)", e.b));
 		if (e.kind == EV_END && w && w->type == WT_OP) {
 			if (e.method == OP_PLAN_CLEAR) m.v.clear();
-			if (e.method == OP_PLAN_REMOVE) removeMask(m.v, t.ev[w->b].a);
+			/* OP_PLAN_REMOVE: every removal was applied when it happened (NOTE_ITER_REMOVE) */
 		}
 		if (e.kind == EV_CB && isOutcome(e.method)) m.outcomePending = true;
 		if (!hasSnap(e)) continue;
